@@ -392,7 +392,7 @@ def coordinate(drv, pool, plan_: dict, deadline: float) -> None:
             docs = {"self": doc, "other0": others[0], "other1": others[1]}
             r = rng.stream(ds, "args")
             meta = r.choice(["poetry", "pdm", "setup", "none"])
-            config = {"literal_enums": r.random() < 0.2, "generate_all_tags": r.random() < 0.2, "docstrings_on_attributes": r.random() < 0.2}
+            config = docgen.random_config(r, doc)
             if dmeta.get("ct_overrides"):
                 config["content_type_overrides"] = dmeta["ct_overrides"]
             with_hooks = (i % plan_["hooks_every"]) == 0
